@@ -648,7 +648,7 @@ package secp256k1
 //@   ct
 //@   props C16 C18
 //@   timeout 60
-//@   bounded len(scalars) <= 3: list lengths 0..3 are verified (all scalars and valid points; list entries distinct objects, the receiver may be one of the points); lengths 4..8 only by the bounded execution msm_lengths; longer lists are not covered
+//@   bounded len(scalars) <= 3: list lengths 0..3 are verified (all scalars and valid points; list entries distinct objects, the receiver may be one of the points); lengths 4..40 and a sample of longer ones up to 257 only by the bounded execution msm_lengths; other lengths are not covered
 //@   boundedcheck msm_lengths@C16
 //@   requires len(scalars) <= 3 && len(points) <= 3
 //@   split len(scalars) in 0..3
@@ -669,7 +669,7 @@ package secp256k1
 //@ func (*Point).MultiScalarMultVartime
 //@   props C16 C18
 //@   timeout 60
-//@   bounded len(scalars) <= 3: list lengths 0..3 are verified (all scalars and valid points; list entries distinct objects, the receiver may be one of the points); lengths 4..8 only by the bounded execution msm_lengths; longer lists are not covered
+//@   bounded len(scalars) <= 3: list lengths 0..3 are verified (all scalars and valid points; list entries distinct objects, the receiver may be one of the points); lengths 4..40 and a sample of longer ones up to 257 only by the bounded execution msm_lengths; other lengths are not covered
 //@   boundedcheck msm_lengths@C16
 //@   requires len(scalars) <= 3 && len(points) <= 3
 //@   split len(scalars) in 0..3
